@@ -283,13 +283,33 @@ func ruleL3(p *Prog, r *Report) {
 			continue
 		}
 		calls := map[string]bool{}
-		eachInstr(f, func(in ssa.Instruction) {
-			if c, ok := in.(ssa.CallInstruction); ok {
-				if g := c.Common().StaticCallee(); g != nil && recvName(g) == "head" {
-					calls[g.Name()] = true
+		// the decoder itself, and private helpers it hands its header to
+		var collect func(fn *ssa.Function, depth int)
+		collect = func(fn *ssa.Function, depth int) {
+			eachInstr(fn, func(in ssa.Instruction) {
+				c, ok := in.(ssa.CallInstruction)
+				if !ok {
+					return
 				}
-			}
-		})
+				g := c.Common().StaticCallee()
+				if g == nil {
+					return
+				}
+				if recvName(g) == "head" {
+					calls[g.Name()] = true
+					return
+				}
+				if depth < 3 && g.Pkg == p.RootSSA && len(g.Blocks) > 0 {
+					for _, a := range c.Common().Args {
+						if typeName(a.Type()) == "head" {
+							collect(g, depth+1)
+							break
+						}
+					}
+				}
+			})
+		}
+		collect(f, 0)
 		for _, nd := range d.needs {
 			n++
 			r.Decide(calls[nd], R, "flag-read:"+d.fn+"."+nd, p.Pos(f.Pos()), "decoder consults the flag the encoder sets", "decoder ignores the header flag "+nd+": it would misparse registers in which the flag differs from its assumption")
